@@ -129,3 +129,13 @@ def confirm(stat_fn, n, reps=3, factor=4):
         if not z > Z_CONFIRM:
             return False, zs
     return True, zs
+
+
+def expected_coincidences(n, magnitude, sd):
+    """Expected number of exactly repeated values among n i.i.d. draws of a continuous law with standard deviation sd whose
+    values have magnitude up to ``magnitude``, due to the finite resolution of doubles: n^2/2 * ulp * integral f^2, with
+    integral f^2 = 1/(2 sd sqrt(pi)) for a normal law (other unimodal laws are within a small factor)."""
+    if sd <= 0:
+        return float("inf")
+    ulp = math.ulp(max(magnitude, 1e-300))
+    return 0.5 * n * n * ulp / (2.0 * sd * math.sqrt(math.pi))
